@@ -276,7 +276,7 @@ class Gen:
                 self.broke = True
                 return ("raw", "true")
             return ("lit", r.range(0, 9))
-        k = r.below(36)
+        k = r.below(37)
         d = depth - 1
         if k <= 1:
             return ("bin", r.pick(["+", "-", "*"]), self.int_expr(env, d), self.int_expr(env, d))
@@ -378,6 +378,14 @@ class Gen:
             return self.hidden_placeholder_arg(env, d)
         if k in (26, 27, 28):
             return self.branch_join(env, d)
+        if k == 36:
+            # syntax the renamer must preserve besides identifiers: explicit type arguments on a member
+            # access / constructor whose receiver or argument mentions a local
+            self.forms.add("explicit-targs-on-variable-receiver")
+            cv, x = self.fresh(), self.fresh()
+            mapped = gc("map", [("lam", [(x, True)], ("bin", "+", ("var", x), self.int_expr(env + [x], d)))], 1, ("var", cv), True)
+            return ("block", [("let", ("pid", cv, "Cell<int>"), gc("Cell.init", [self.int_expr(env, d)], 1, None, True), False)],
+                    ("post", mapped, ".get()"))
         if k in (34, 35):
             # tuple literals in the parser's `( id …` cover grammar: leading bare identifiers, then an
             # element that starts with an identifier and continues as a compound expression
@@ -1038,3 +1046,54 @@ def path_program(entry):
     return {"funs": [{"name": "f0", "params": ["v0"], "body": body}], "args": [[3]],
             "classes": LIB_ORDER + names + ["Main"], "split": None, "extra": dict(extra), "imports": imports,
             "forms": ["path-" + label], "broken": None if expect == "accepted" else "path", "path": (label, expect)}
+
+
+# ---------------------------------------------------------------- sibling scopes (C13g / C15)
+# A name bound in one scope (if-let pattern, match arm, lambda parameter, block-local let) and a
+# SIBLING scope (else part, next arm, next lambda, statement after the block) that (a) binds the same
+# name again or (b) mentions it. Generated with distinct names (the consistently renamed twin); the
+# base program is the twin with the sibling's name merged into the first one.
+
+def sibling_programs():
+    V0 = ("var", "v0")
+    opt = lambda e: ("raw2", "Opt.of(", [e], ")")
+    so = lambda n: ("pvar", "So", [("pid", n)])
+    lam1 = lambda n: ("lam", [(n, False)], ("bin", "+", ("var", n), ("lit", 1)))
+    cases = [
+        ("iflet-else-let", "accepted",
+         ("iflet", so("a1"), opt(V0), ("var", "a1"), ("block", [("let", ("pid", "a2"), ("lit", 1), False)], ("var", "a2")))),
+        ("iflet-else-lambda", "accepted",
+         ("iflet", so("a1"), opt(V0), ("var", "a1"), gc("Main.ap", [lam1("a2"), ("lit", 2)]))),
+        ("iflet-else-iflet", "accepted",
+         ("iflet", so("a1"), opt(V0), ("var", "a1"),
+          ("iflet", so("a2"), opt(("bin", "+", V0, ("lit", 1))), ("var", "a2"), ("lit", 0)))),
+        ("iflet-else-match", "accepted",
+         ("iflet", so("a1"), opt(V0), ("var", "a1"),
+          ("match", ("raw2", "Main.shOf(", [V0], ")"),
+           [(("pvar", "Ci", [("pid", "a2")]), ("var", "a2")), (("pvar", "Re", [("pwild",), ("pwild",)]), ("lit", 2)), (("pvar", "Em", []), ("lit", 3))]))),
+        ("match-arms", "accepted",
+         ("match", ("raw2", "Main.shOf(", [V0], ")"),
+          [(("pvar", "Ci", [("pid", "a1")]), ("var", "a1")), (("pvar", "Re", [("pid", "a2"), ("pwild",)]), ("var", "a2")), (("pvar", "Em", []), ("lit", 0))])),
+        ("lambda-params", "accepted", ("bin", "+", gc("Main.ap", [lam1("a1"), ("lit", 1)]), gc("Main.ap", [lam1("a2"), ("lit", 2)]))),
+        ("block-then-statement", "accepted",
+         ("block", [("let", ("pid", "t1"), ("block", [("let", ("pid", "a1"), V0, False)], ("var", "a1")), False),
+                    ("let", ("pid", "a2"), ("var", "t1"), False)], ("var", "a2"))),
+        # (b) the sibling only MENTIONS the name: unresolved in both spellings
+        ("iflet-else-mentions", "rejected", ("iflet", so("a1"), opt(V0), ("var", "a1"), ("bin", "+", ("var", "a2"), ("lit", 1)))),
+        ("match-arm-mentions", "rejected",
+         ("match", ("raw2", "Main.shOf(", [V0], ")"),
+          [(("pvar", "Ci", [("pid", "a1")]), ("var", "a1")), (("pvar", "Re", [("pwild",), ("pwild",)]), ("var", "a2")), (("pvar", "Em", []), ("lit", 0))])),
+        ("block-then-mentions", "rejected",
+         ("block", [("let", ("pid", "t1"), ("block", [("let", ("pid", "a1"), V0, False)], ("var", "a1")), False)],
+          ("bin", "+", ("var", "t1"), ("var", "a2")))),
+    ]
+    out = []
+    for label, expect, body in cases:
+        twin = {"funs": [{"name": "f0", "params": ["v0"], "body": body}], "args": [[4]], "args2": [[7]],
+                "classes": LIB_ORDER + ["Main"], "split": None, "forms": ["sibling-" + label],
+                "broken": None if expect == "accepted" else "path", "path": ("sibling-" + label + "-twin", expect)}
+        base = rename_name(twin, "a2", "a1")
+        base["path"] = ("sibling-" + label, expect)
+        base["unmerged"] = twin
+        out.append(base)
+    return out
